@@ -4,7 +4,7 @@ import core
 import simgen
 
 
-NEEDS = {"c15": ("arm64",), "c16": ("arm",), "c13sim": ("arm64", "arm"), "c01sim": ("amd64",), "c11sim": ("arm64",), "c02sim": ()}
+NEEDS = {"c15": ("arm64",), "c16": ("arm",), "c13sim": ("arm64", "arm"), "c01sim": ("amd64",), "c11sim": ("arm64",), "c02sim": (), "c02guard": ("realcore",)}
 
 
 def run_sim(r, scenario, seed, tier, variants, profiles, nshards=4, extra=None, crosscheck=True):
